@@ -1,4 +1,180 @@
-(* props/C08.v — theorem statements (being filled in). *)
+(* props/C08.v — C08: debounce — one non-overlapping, non-empty call per quiet
+   period.  ONLY theorem statements about the executable model Buffer.v (the
+   model the correspondence check runs against /repo), each closed by a lemma
+   of BufferInv.v / BufferJoin.v / BufferTime.v / BufferQuiet.v, with
+   Print Assumptions beneath, and non-vacuity Examples at the end.
+
+   Vocabulary.  [trace T evs] is the list, one entry per external event, of what
+   the harness observes in that macro step when the buffer has timeout T (ticks):
+   FnStart callno set tick / FnEnd callno ok set / WaitRet / DaemonEnded.
+   [final T evs] is the model state after the events.  Event lists are
+   arbitrary: any producers (immediate, awaitable, async iterable, failing),
+   any Advance, wait(cancel=..) calls, function outcomes, shutdown and the
+   foreign-thread halves of _put. *)
 From Coq Require Import List NArith Bool.
 Import ListNotations.
-Require Import Aiuti.Buffer.
+Require Import Aiuti.Buffer Aiuti.BufferInv Aiuti.BufferJoin Aiuti.BufferTime Aiuti.BufferQuiet
+               Aiuti.Case_Buffer.
+
+(* For EVERY event list, in the flattened trace:
+   (a) every call of the wrapped function gets a non-empty set;
+   (b) between the start of a call and the start of any later call lies the end
+       (FnEnd, ok or failed) of that very call — calls never overlap;
+   (c) calls are numbered consecutively from 0 (the k-th FnStart carries k). *)
+Theorem serial_nonempty :
+  forall (T : N) (evs : list event),
+    let tr := concat (trace T evs) in
+    (forall pre c set t rest, tr = pre ++ FnStart c set t :: rest -> set <> []) /\
+    (forall pre c set t mid c' set' t' rest,
+        tr = pre ++ FnStart c set t :: mid ++ FnStart c' set' t' :: rest ->
+        exists ok set_end, In (FnEnd c ok set_end) mid) /\
+    (forall pre c set t rest, tr = pre ++ FnStart c set t :: rest -> c = n_starts pre).
+Proof. exact serial_nonempty_readable. Qed.
+Print Assumptions serial_nonempty.
+
+(* The same fact in the form used by the trace monitor: the automaton [serial]
+   (no FnStart while a call is open, no empty set, consecutive numbers, FnEnd
+   only for the open call) accepts the trace of every event list. *)
+Theorem serial_monitor_accepts_model :
+  forall (T : N) (evs : list event), serial false 0 (concat (trace T evs)) <> None.
+Proof. exact serial_nonempty_lemma. Qed.
+Print Assumptions serial_monitor_accepts_model.
+
+(* Debounce.  Take ANY reachable state in which the daemon is idle (parked on the
+   first q.get() of a round) and nobody is inside wait().  Submit a burst of
+   producers whose arguments are immediately available (plain call, map() of a
+   list, map() of an iterator incl. one that fails part-way), with fresh ids,
+   the first after any delay g0, each further one LESS than [timeout] after its
+   predecessor, and then let at least [timeout] pass.  Then nothing at all is
+   observed while the burst lasts, and the final Advance shows exactly one call,
+   number [callno], whose set is the whole burst, starting exactly [timeout]
+   after the last arrival (when the burst carried no argument at all — only
+   empty producers — there is no call). *)
+Theorem debounce_single_call_at_timeout :
+  forall (T : N) (evs : list event) (g0 : N) (p0 : nat) (k0 : pkind) (rest : list item) (d : N),
+    (0 < T)%N ->
+    let s := final T evs in
+    dm s = DIdle -> waiters s = [] ->
+    is_imm k0 = true -> existsb (Nat.eqb p0) (seen s) = false ->
+    burst_ok T (seen s ++ [p0]) rest -> (T <= d)%N ->
+    let b := (g0, p0, k0) :: rest in
+    snd (run s (burst_events b ++ [Advance d])) =
+    quiet (length (burst_events b)) ++
+    [call_obs (callno s) (set_addl (burst_args b) []) (now s + burst_span b + T)].
+Proof. exact debounce_reachable. Qed.
+Print Assumptions debounce_single_call_at_timeout.
+
+(* Why a call can start at all, for EVERY event list and every next event e:
+   a FnStart observed at tick t in the macro step of e lies within that step's
+   time span, and
+     - either the quiet timer fired: t is at least [timeout] after the latest
+       accepted submission (g_lastsub, characterised by lastsub_is_latest_submission),
+     - or a flush was forced: some task inside wait(cancel=True) has not
+       returned yet, or e itself is such a wait(),
+     - or the daemon had been kept waiting by a slow producer after the timer
+       fired / after the timed read was cancelled (only possible with
+       awaitable / async-iterable producers). *)
+Theorem call_start_cause :
+  forall (T : N) (evs : list event) (e : event) c set t,
+    let s := final T evs in
+    In (FnStart c set t) (snd (step s e)) ->
+    (now s <= t <= now (fst (step s e)))%N /\
+    ((g_lastsub (gh (fst (step s e))) + T <= t)%N \/
+     forcedw s \/ (exists w, e = Wait w true) \/ kept_waiting (dm s)).
+Proof. exact call_start_cause_lemma. Qed.
+Print Assumptions call_start_cause.
+
+(* not_early.  With immediately available producers only (plain / map; any
+   Advance, wait(), function outcomes, shutdown): a call that starts without a
+   forced flush starts at least [timeout] after the latest submission. *)
+Theorem not_early :
+  forall (T : N) (evs : list event) (e : event) c set t,
+    imm_only (evs ++ [e]) = true ->
+    let s := final T evs in
+    In (FnStart c set t) (snd (step s e)) ->
+    (g_lastsub (gh (fst (step s e))) + T <= t)%N \/
+    forcedw s \/ (exists w, e = Wait w true).
+Proof. exact not_early_lemma. Qed.
+Print Assumptions not_early.
+
+(* The ghost g_lastsub used above is exactly "the instant of the latest accepted
+   submission": a step changes it only when the event is a Submit / FPut with an
+   unused producer id on a live buffer, and then sets it to the current tick. *)
+Theorem lastsub_is_latest_submission :
+  forall (T : N) (evs : list event) (e : event),
+    let s := final T evs in
+    g_lastsub (gh (fst (step s e))) = if accepted_submit s e then now s else g_lastsub (gh s).
+Proof. exact lastsub_final. Qed.
+Print Assumptions lastsub_is_latest_submission.
+
+(* Behind the timing statements: whenever the quiet timer is armed, its deadline
+   is at least [timeout] after the latest submission and at most [timeout] ahead. *)
+Theorem armed_deadline_bounds :
+  forall (T : N) (evs : list event) d,
+    let s := final T evs in
+    armed_deadline (dm s) = Some d ->
+    (g_lastsub (gh s) + T <= d /\ d <= now s + T)%N /\ tmo s = T.
+Proof. exact armed_bounds_final. Qed.
+Print Assumptions armed_deadline_bounds.
+
+(* ---- non-vacuity ------------------------------------------------------------- *)
+
+(* a reachable idle state (after a first call has completed) and a burst of three
+   producers — a plain call, a two-element list, an iterator failing after one
+   element — with gaps 3, 7, 0 below the timeout 8: silence, then one call with
+   all four arguments at 30 + 3 + 7 + 0 + 8 = 48 *)
+Example debounce_example :
+  let evs := [Submit 0 (Plain 9); Advance 30; FnOk] in
+  let s := final 8 evs in
+  dm s = DIdle /\ waiters s = [] /\ callno s = 1 /\ now s = 30%N /\
+  burst_ok 8 (seen s ++ [1]) [(7%N, 2, SyncList [5; 4]); (0%N, 3, SyncIter [6; 1] (Some 1))] /\
+  snd (run s (burst_events [(3%N, 1, Plain 7); (7%N, 2, SyncList [5; 4]); (0%N, 3, SyncIter [6; 1] (Some 1))]
+              ++ [Advance 8])) =
+  [[]; []; []; []; []; []; [FnStart 1 [4; 5; 6; 7] 48%N]].
+Proof. vm_compute. repeat split; reflexivity. Qed.
+
+(* the timer case of not_early / call_start_cause *)
+Example not_early_timer_example :
+  let evs := [Submit 0 (Plain 1); Advance 5; Submit 1 (Plain 2)] in
+  imm_only (evs ++ [Advance 20]) = true /\
+  snd (step (final 8 evs) (Advance 20)) = [FnStart 0 [1; 2] 13%N] /\
+  g_lastsub (gh (fst (step (final 8 evs) (Advance 20)))) = 5%N.
+Proof. vm_compute. repeat split; reflexivity. Qed.
+
+(* the forced-flush disjunct is needed: wait(cancel=True) starts the call at once *)
+Example forced_flush_example :
+  let evs := [Submit 0 (Plain 1); Advance 5] in
+  snd (step (final 8 evs) (Wait 0 true)) = [FnStart 0 [1] 5%N] /\
+  snd (step (final 8 evs) (Wait 0 false)) = [].
+Proof. vm_compute. split; reflexivity. Qed.
+
+(* ... also when the wait() was issued earlier, while the previous call was running *)
+Example forced_flush_pending_example :
+  let evs := [Submit 0 (Plain 1); Advance 8; Submit 1 (Plain 2); Wait 0 true] in
+  snd (step (final 8 evs) FnOk) = [FnEnd 0 true [1]; FnStart 1 [2] 8%N] /\
+  exists w, In w (waiters (final 8 evs)) /\ wcancel w = true.
+Proof. vm_compute. split; [reflexivity|]. eexists. split; [left; reflexivity|reflexivity]. Qed.
+
+(* the kept-waiting disjunct is needed: the timer fires while an async producer is
+   slow, a later submission arrives, the producer ends: the call starts less
+   than a timeout after that submission (which stays queued for the next call) *)
+Example kept_waiting_example :
+  let evs := [Submit 0 Async; PYield 0 1; Advance 9; Submit 1 (Plain 2)] in
+  snd (step (final 8 evs) (PEnd 0)) = [FnStart 0 [1] 9%N] /\
+  g_lastsub (gh (final 8 evs)) = 9%N /\
+  dm (final 8 evs) = DGather [1] [mkprod 0 false false []] GTimedOut.
+Proof. vm_compute. repeat split; reflexivity. Qed.
+
+(* serial: a run with a failing call, a retry and an arrival under the running call *)
+Example serial_example :
+  concat (trace 8 [Submit 0 (Plain 1); Advance 8; Submit 1 (Plain 2); FnFail; Advance 8; FnOk]) =
+  [FnStart 0 [1] 8%N; FnEnd 0 false [1]; FnStart 1 [1; 2] 16%N; FnEnd 1 true [1; 2]].
+Proof. vm_compute. reflexivity. Qed.
+
+(* the monitor automaton rejects overlapping calls, empty sets, wrong numbers *)
+Example serial_rejects :
+  serial false 0 [FnStart 0 [1] 8%N; FnStart 1 [2] 9%N] = None /\
+  serial false 0 [FnStart 0 [] 8%N] = None /\
+  serial false 0 [FnStart 1 [1] 8%N] = None /\
+  serial false 0 [FnStart 0 [1] 8%N; FnEnd 0 true [1]; FnStart 1 [2] 9%N] = Some (true, 2).
+Proof. vm_compute. repeat split; reflexivity. Qed.
